@@ -136,9 +136,27 @@ func one(r *mon.Run, d draft, payload []byte, rs int, class string, scheds []sch
 				out = sink.Bytes()
 				return
 			}
-			dst := make([]byte, sc.dstSize(rs))
+			// the destination is a window of a larger array the caller keeps using (capacity reaches far beyond the
+			// window): everything outside the window belongs to the caller - it is checked after, and overwritten before,
+			// every Read
+			size := sc.dstSize(rs)
+			arena := make([]byte, 64+size+rs+200)
+			dst := arena[64 : 64+size]
+			canary := byte(0xA5)
 			for steps := 0; ; steps++ {
+				canary += 7
+				for i := range arena {
+					if i < 64 || i >= 64+size {
+						arena[i] = canary
+					}
+				}
 				k, e := dec.Read(dst)
+				for i := range arena {
+					if (i < 64 || i >= 64+size) && arena[i] != canary {
+						bad = fmt.Sprintf("Read wrote outside the %d-byte buffer it was given (offset %d relative to the buffer)", size, i-64)
+						return
+					}
+				}
 				out = append(out, dst[:k]...)
 				if e == io.EOF {
 					return
